@@ -290,7 +290,7 @@ class BanditNodeVisitor:
             "file_data": self.fdata,
             "filename": self.fname,
             "lineno": 0,
-            "linerange": [0, 1],
+            "linerange": [0],
             "col_offset": 0,
         }
         self.update_scores(self.tester.run_tests(self.context, "File"))
